@@ -177,7 +177,12 @@ pub fn check(cx: &Cx, rep: &mut Report) {
                 if !inst.contains(&cb.obj) {
                     inst.push(cb.obj);
                     if cb.tag == tag {
-                        let spawn = ix.task_kind.get(&cb.actor).map(|t| t.2).unwrap_or(cb.i);
+                        // when the instance came into being: L1 = the instant its task was spawned; L2 (no task
+                        // events) = the instant the value was created by `Default::default()`, which the library calls
+                        // inside the lookup (not the start of `started()`: only debug builds make the lookup wait for
+                        // that)
+                        let born = ix.ev.iter().find(|e| matches!(&e.k, K::ObjNew { obj, .. } if *obj == cb.obj)).map(|e| e.stamp);
+                        let spawn = ix.task_kind.get(&cb.actor).map(|t| t.2).or(born).unwrap_or(cb.i);
                         defaults.push((inst.len() - 1, spawn));
                     }
                 }
